@@ -46,6 +46,27 @@ let () =
     let ops = rlist rop r in
     let res = convert_plain_ops rd wr ops doc in
     if !ns then (Buffer.add_string b "NS "; pres (fun _ -> ()) res) else pres pstr res);
+  (* the CLI: sub-command code 0 apply-linear-correction, 1 convert, 2 fragment, 3 merge, 4 optimize, 5 sync, 6 unfragment,
+     7 invalid; for an STL destination the creation/revision date bytes (offsets 224..235: real clock) are masked *)
+  register "cliplain" (fun r ->
+    let s = rint r in let d = rint r in let doc = rstr r in
+    let cmd = (match rint r with 0 -> SApplyLin | 1 -> SConvert | 2 -> SFragment | 3 -> SMerge | 4 -> SOptimize | 5 -> SSync
+                               | 6 -> SUnfragment | _ -> SInvalid) in
+    let a1 = rz r in let d1 = rz r in let a2 = rz r in let d2 = rz r in let f = rz r in let sy = rz r in
+    let rd = Hashtbl.find plain_readers s and wr = Hashtbl.find plain_writers d and simple = Hashtbl.find plain_simple s in
+    let ns = ref (not (simple doc)) in
+    let second =
+      if rint r = 0 then None else begin
+        let m = rstr r in
+        if not ((Hashtbl.find plain_simple 0) m) then ns := true;
+        (match (Hashtbl.find plain_readers 0) m with Ok p -> Some p | _ -> failwith "cliplain: second input unreadable")
+      end in
+    let a = { c_cmd = cmd; c_a1 = a1; c_d1 = d1; c_a2 = a2; c_d2 = d2; c_f = f; c_s = sy; c_second = second } in
+    let res = cli_run rd wr a doc in
+    let res = (match res with
+               | Ok bytes when d = 3 -> Ok (List.mapi (fun i c -> if i >= 224 && i <= 235 then n_of_int 48 else c) bytes)
+               | x -> x) in
+    if !ns then (Buffer.add_string b "NS "; pres (fun _ -> ()) res) else pres pstr res);
   register "plainwrite" (fun r ->
     let d = rint r in let p = rplain r in
     pres pstr ((Hashtbl.find plain_writers d) p))
